@@ -345,6 +345,10 @@ def mixed_scenario(rng, n, plens, outgoing, steps, w_wait=0.15, w_broad=0.15, hs
             greeted = True
         elif r < w_wait + w_broad + 0.09:
             ev.append(ev_msg(m_hs(), init="1" * n))      # repeated / late handshake
+        elif r < w_wait + w_broad + 0.12:
+            # bytes that make recv_frame fail: oversized frame, impossible length prefix
+            ev.append(ev_bad(rng.choice([struct.pack(">IB", 70000, 7), struct.pack(">IB", 2, 0), struct.pack(">IB", 3, 4) + b"ab",
+                                         struct.pack(">IB", 2 ** 32 - 1, 5)])))
         else:
             ev.append(ev_msg(random_peer_msg(rng, max(n, 1), plens), **random_policy(rng, n, plens)))
     if rng.random() < 0.2:
